@@ -26,7 +26,9 @@ def tktTok : Option Ticket → String
     s!"{t.id}.{t.state}.{sigTok t.offerSig}.{if t.recipient then 1 else 0}.{ord}"
 
 def parseSig : Char → Option Sig
-  | 'n' => some .none | 'v' => some .valid | 'x' => some .bad | _ => none
+  | 'n' => some .none | 'v' => some .valid | 'x' => some .bad
+  | 'y' => some .bad   -- the registered signature bytes over a changed signed field: invalid all the same
+  | _ => none
 
 def parseTkt (s : String) : Option (Option Ticket) :=
   if s == "nil" then some none else
@@ -195,6 +197,44 @@ def drvStep (st : DrvSt) (args : List String) : DrvSt × String :=
       | none => (st, "not-enabled")
       | some s1 => let s2 := settle prov 16 s1; ({ sys := s2 }, sumTok s0 s2)
     | _, _ => (st, "bad-op")
+  | ["db", kind, seq] =>
+    -- a sequence of UpdateSidecar calls on a store prepared with AddSidecarWithBid (bid) / AddSidecar (plain) /
+    -- nothing (none); items `<state><n|z|b>` (order part missing / zero nonce / bid nonce)
+    let db0 : Option TicketDB := match kind with
+      | "bid" => some ⟨true, true, true⟩
+      | "plain" => some ⟨true, false, false⟩
+      | "none" => some ⟨false, false, false⟩
+      | _ => none
+    match db0 with
+    | none => (st, "bad-op")
+    | some db0 =>
+      let items := seq.splitOn ","
+      let step := fun (acc : Option (TicketDB × List String)) (it : String) =>
+        match acc with
+        | none => none
+        | some (db, outs) =>
+          match it.toList.reverse with
+          | c :: rest =>
+            match (String.ofList rest.reverse).toNat? with
+            | some stt =>
+              if c == 'n' || c == 'z' || c == 'b' then
+                let r := updateSidecarDB db stt (c != 'n') (c == 'z')
+                some (r.1, outs ++ [b01 r.2])
+              else none
+            | none => none
+          | [] => none
+      match items.foldl step (some (db0, [])) with
+      | some (_, outs) => (st, joinWith "," outs)
+      | none => (st, "bad-op")
+  | ["outage", side] =>
+    -- receive error whose first reconnect attempt fails as well: the reader just retries
+    match parseSide side with
+    | some prov =>
+      let s0 := st.sys
+      match apply s0 (.recvErr prov) with
+      | none => (st, "not-enabled")
+      | some s1 => ({ sys := s1 }, sumTok s0 s1)
+    | none => (st, "bad-op")
   | ["rerr", side] =>
     match parseSide side with
     | some prov =>
